@@ -58,9 +58,15 @@ def _stage_ab(ctx):
             for row in rows:
                 if row[1] == "sign":
                     _, _, d, z, draws, want = row
-                    with scripted_rng(draws) as used:
+                    # the row's draws first, then a fixed tail: an implementation may consume more draws per attempt than the
+                    # specification's loop (e.g. a blinding factor next to the nonce) and must never starve
+                    tail = [((7 * i + 3) % (c["n"] - 1)) + 1 for i in range(60)]
+                    with scripted_rng(list(draws) + tail) as used:
                         got = vlib.run_call(em.sign, d, z)
                     n += 1
+                    if got.get("err") == "DrawsExhausted":
+                        ctx.cov["c01_rows_inconclusive_draws_exhausted"] = ctx.cov.get("c01_rows_inconclusive_draws_exhausted", 0) + 1
+                        continue
                     if want and want[2] > 1:
                         ctx.nontrivial(("B", cn, "retry", d, z, tuple(draws)))
                     case = {"stage": "B", "curve": cn, "op": "sign", "d": d, "z": z, "draws": draws, "spec": want}
@@ -71,7 +77,7 @@ def _stage_ab(ctx):
                     if "err" in got or not _is_sig(got["ok"]):
                         ctx.violation("sign-raised", dict(case, got=str(got)))
                         continue
-                    by_r.setdefault(got["ok"][0], []).append((d, z, frozenset(used), want[0], draws))
+                    by_r.setdefault(got["ok"][0], []).append((d, z, frozenset(used), want[0], draws, got["ok"][1]))
                     if list(got["ok"]) == want[:2] and len(used) == want[2]:
                         identical += 1
                         continue
@@ -108,8 +114,18 @@ def _stage_ab(ctx):
                         # cannot be evaluated; the clause is judged for such code at full size (signpair events of stage C)
                         ctx.cov["c01_pairs_without_draws_skipped"] = ctx.cov.get("c01_pairs_without_draws_skipped", 0) + 1
                         continue
-                    neg_b = {(nn - x) % nn for x in b[2]}
-                    if a[2] & b[2] or a[2] & neg_b:
+                    # Both nonces must be traceable to draws of their own signature; then the coincidence is the source's (it
+                    # repeated a draw, or gave two draws whose nonces are negatives of each other - k and n-k share x).  The
+                    # nonce is recovered from the signature (k = (z + r d) / s, up to sign because of low-S); a draw x may
+                    # become the nonce as x or as x + 1 (randbelow(n) with retry on 0, or 1 + randbelow(n - 1)).
+                    def nonce(e):
+                        sv = e[5] % nn
+                        if sv == 0:
+                            return set()
+                        k = (e[1] + rv * e[0]) * pow(sv, -1, nn) % nn
+                        return {k, (nn - k) % nn}
+                    ka, kb = nonce(a), nonce(b)
+                    if any({(x + off) % nn for x in a[2]} & ka and {(y + off) % nn for y in b[2]} & kb for off in (0, 1)):
                         continue
                     flagged += 1
                     if flagged <= 3:
